@@ -30,6 +30,9 @@ fn main() {
         None => Box::new(std::io::BufWriter::new(std::io::stdout())),
     };
     let mut st = stats::Stats::default();
+    if let Some(m) = arg(&args, "--menu") {
+        let _ = world::search::MENU.set(m);
+    }
     if let Some(b) = arg(&args, "--bias") {
         let _ = world::gen::BIAS.set(b);
     }
